@@ -1301,7 +1301,7 @@ def _exec(ops, upto=None, trace=True, return_store=False, hook=None):
         k = o[0]
         out = "-"
         try:
-            signal.setitimer(signal.ITIMER_REAL, 0.7)   # per operation: a changed implementation that loops must not hang generation or checks
+            signal.setitimer(signal.ITIMER_REAL, 2.0)   # per operation: a changed implementation that loops must not hang generation or checks
         except ValueError:
             pass
         try:
